@@ -23,6 +23,7 @@ type c08Prog struct {
 	constOOB     bool // some out-of-range access uses a compile-time-known index
 	appendsFirst bool
 	wideIdx      bool // some index expression is not of type i32
+	nested       bool // array of arrays / array in a struct field
 }
 
 func c08Generate(rng *rand.Rand, withStrings bool) c08Prog {
@@ -200,6 +201,129 @@ func c08Generate(rng *rand.Rand, withStrings bool) c08Prog {
 	return out
 }
 
+// c08GenerateNested: a literal-initialised array of arrays whose rows differ in length (some longer
+// than the number of rows, so an inner index can exceed the outer length) and a struct holding a
+// dynamic array; reads, writes and len through literal, let-bound and opaque indices on both levels.
+func c08GenerateNested(rng *rand.Rand) c08Prog {
+	I32 := gen.I32
+	lit := func(t *gen.Type, v int64) *gen.Lit { return &gen.Lit{T: t, I: gen.Norm(t, v)} }
+	et := []*gen.Type{gen.I32, gen.I64, gen.I16, gen.U8}[rng.IntN(4)]
+	rowT := &gen.Type{K: gen.KDyn, Elem: et}
+	gT := &gen.Type{K: gen.KDyn, Elem: rowT}
+	g := &gen.Var{Name: "g", T: gT}
+	idf := &gen.Func{Name: "ix", Params: []gen.Param{{Name: "k", T: I32}}, Ret: I32, Body: []gen.Stmt{&gen.Return{X: &gen.Var{Name: "k", T: I32}}}}
+	boxT := &gen.Type{K: gen.KStruct, Name: "Box", Fields: []gen.Field{{Name: "F", T: rowT}, {Name: "N", T: I32}}}
+	prog := &gen.Program{Features: map[string]bool{}, Funcs: []*gen.Func{idf}, Types: []*gen.Type{boxT}}
+	out := c08Prog{}
+	var main []gen.Stmt
+	nrows := 1 + rng.IntN(3)
+	lens := make([]int, nrows)
+	gl := &gen.ArrLit{T: gT}
+	for i := range lens {
+		lens[i] = 1 + rng.IntN(6)
+		if rng.IntN(2) == 0 {
+			lens[i] = nrows + 1 + rng.IntN(4) // longer than the number of rows
+		}
+		rl := &gen.ArrLit{T: rowT}
+		for k := 0; k < lens[i]; k++ {
+			rl.Elems = append(rl.Elems, lit(et, int64(10*(i+1)+k)))
+		}
+		gl.Elems = append(gl.Elems, rl)
+	}
+	main = append(main, &gen.Let{Name: "g", T: gT, Init: gl, Annot: true})
+	blen := 2 + rng.IntN(5)
+	bl := &gen.ArrLit{T: rowT}
+	for k := 0; k < blen; k++ {
+		bl.Elems = append(bl.Elems, lit(et, int64(100+k)))
+	}
+	main = append(main, &gen.Let{Name: "bx", T: boxT, Init: &gen.StructLit{T: boxT, Vals: []gen.Expr{bl, lit(I32, 1)}}, Annot: true})
+	bxF := &gen.FieldX{X: &gen.Var{Name: "bx", T: boxT}, Name: "F", T: rowT}
+	tn := 0
+	mkIndex := func(k int64) (gen.Expr, bool) {
+		switch rng.IntN(3) {
+		case 0:
+			return lit(I32, k), true
+		case 1:
+			tn++
+			name := fmt.Sprintf("k%d", tn)
+			main = append(main, &gen.Let{Name: name, T: I32, Init: lit(I32, k)})
+			return &gen.Var{Name: name, T: I32}, true
+		}
+		return &gen.Call{Fn: idf, Args: []gen.Expr{lit(I32, k)}}, false
+	}
+	pick := func(l int) int64 {
+		L := int64(l)
+		if rng.IntN(100) < 80 {
+			k := int64(rng.IntN(l))
+			if rng.IntN(3) == 0 {
+				k -= L
+			}
+			return k
+		}
+		return []int64{L, L + 1, -L - 1, 1 << 20}[rng.IntN(4)]
+	}
+	oob := false
+	steps := 4 + rng.IntN(10)
+	for s := 0; s < steps && !oob; s++ {
+		tn++
+		name := fmt.Sprintf("t%d", tn)
+		switch rng.IntN(6) {
+		case 0, 1, 2: // g[i][k]
+			i := pick(nrows)
+			ie, k1 := mkIndex(i)
+			if i < -int64(nrows) || i >= int64(nrows) {
+				main = append(main, &gen.Let{Name: name, T: et, Init: &gen.Index{X: &gen.Index{X: g, I: ie, T: rowT}, I: lit(I32, 0), T: et}, Annot: true}, &gen.Print{X: &gen.Var{Name: name, T: et}})
+				oob, out.constOOB = true, k1
+				continue
+			}
+			ri := int(i)
+			if ri < 0 {
+				ri += nrows
+			}
+			k := pick(lens[ri])
+			ke, k2 := mkIndex(k)
+			elem := &gen.Index{X: &gen.Index{X: g, I: ie, T: rowT}, I: ke, T: et}
+			if rng.IntN(3) == 0 {
+				main = append(main, &gen.Assign{LHS: elem, Op: "=", RHS: lit(et, int64(rng.IntN(100)))})
+				if k >= -int64(lens[ri]) && k < int64(lens[ri]) {
+					main = append(main, &gen.Let{Name: name, T: et, Init: &gen.Index{X: &gen.Index{X: g, I: lit(I32, int64(ri)), T: rowT}, I: lit(I32, k), T: et}, Annot: true}, &gen.Print{X: &gen.Var{Name: name, T: et}})
+				}
+			} else {
+				main = append(main, &gen.Let{Name: name, T: et, Init: elem, Annot: true}, &gen.Print{X: &gen.Var{Name: name, T: et}})
+			}
+			if k < -int64(lens[ri]) || k >= int64(lens[ri]) {
+				oob, out.constOOB = true, k1 && k2
+			}
+		case 3: // len of a row
+			i := int64(rng.IntN(nrows))
+			ie, _ := mkIndex(i)
+			main = append(main, &gen.Let{Name: name, T: I32, Init: &gen.Len{X: &gen.Index{X: g, I: ie, T: rowT}}, Annot: true}, &gen.Print{X: &gen.Var{Name: name, T: I32}})
+		default: // bx.F[k]
+			k := pick(blen)
+			ke, k2 := mkIndex(k)
+			elem := &gen.Index{X: bxF, I: ke, T: et}
+			if rng.IntN(3) == 0 {
+				main = append(main, &gen.Assign{LHS: elem, Op: "=", RHS: lit(et, int64(rng.IntN(100)))})
+			} else {
+				main = append(main, &gen.Let{Name: name, T: et, Init: elem, Annot: true}, &gen.Print{X: &gen.Var{Name: name, T: et}})
+			}
+			if k < -int64(blen) || k >= int64(blen) {
+				oob, out.constOOB = true, k2
+			}
+		}
+	}
+	if !oob {
+		for i := 0; i < nrows; i++ {
+			main = append(main, &gen.ForDyn{Val: fmt.Sprintf("v%d", i), Arr: &gen.Index{X: g, I: lit(I32, int64(i)), T: rowT}, Body: []gen.Stmt{&gen.Print{X: &gen.Var{Name: fmt.Sprintf("v%d", i), T: et}}}})
+		}
+	}
+	main = append(main, &gen.Print{X: &gen.Lit{T: gen.TStr, S: "end"}})
+	prog.Main = main
+	out.p = prog
+	out.nested = true
+	return out
+}
+
 func btoi(b bool) int {
 	if b {
 		return 1
@@ -209,13 +333,18 @@ func btoi(b bool) int {
 
 func checkC08(c *Ctx) error {
 	r := c.R
-	r.Rule = "histories over one dynamic array (literal of 0-5 elements, appends crossing the growth thresholds, element widths 1-8 bytes, get/set/len, final iteration) and one string, with indices that are literals, let-bound constants or returned by an opaque function, of every integer type i8..u64 that can hold the value, drawn from {-len-1,-len,-1,0,len-1,len,len+1,+-2^20, +-2^32 (+ a valid index), 2^32-1, 2^31, +-2^62} or valid for the current length; compiled for native and wasm and compared with the reference list/string model including the panic point and the lines printed before it (stdout is a file). A compile-time rejection is accepted only if the reference panics at a compile-time-known index. non-trivial = a distinct history whose verdict was decided on at least one target"
+	r.Rule = "every fourth program: an array of arrays with rows of different lengths (some longer than the number of rows) and a struct holding a dynamic array, read / written / measured through literal, let-bound and opaque indices on both levels; the others: histories over one dynamic array (literal of 0-5 elements, appends crossing the growth thresholds, element widths 1-8 bytes, get/set/len, final iteration) and one string, with indices that are literals, let-bound constants or returned by an opaque function, of every integer type i8..u64 that can hold the value, drawn from {-len-1,-len,-1,0,len-1,len,len+1,+-2^20, +-2^32 (+ a valid index), 2^32-1, 2^31, +-2^62} or valid for the current length; compiled for native and wasm and compared with the reference list/string model including the panic point and the lines printed before it (stdout is a file). A compile-time rejection is accepted only if the reference panics at a compile-time-known index. non-trivial = a distinct history whose verdict was decided on at least one target"
 	r.Assumptions = []string{"the panic message must contain 'index out of bounds'", "string indexing prints the byte as a character"}
-	n := c.N(50, 1200)
+	n := c.N(64, 1600)
 	runProbes(c, "C08", core.Native)
 	core.ParDo(n, 5, func(i int) {
 		rng := r.Rng(i)
-		cp := c08Generate(rng, i%3 == 0)
+		var cp c08Prog
+		if i%4 == 3 {
+			cp = c08GenerateNested(rng)
+		} else {
+			cp = c08Generate(rng, i%3 == 0)
+		}
 		src := cp.p.Source()
 		id := fmt.Sprintf("gen:%d:%d", c.Env.Seed, i)
 		exp := gen.Run(cp.p)
